@@ -78,6 +78,7 @@ def _skip_angle(s, i):
 
 EXTERNAL_ROOTS = {'tokio', 'std', 'core', 'alloc', 'futures', 'futures_util', 'dashmap', 'once_cell', 'tracing', 'tracing_core', 'bon', 'strum', 'rand', 'prost', 'sha2',
                   'bytes', 'tokio_rustls', 'rustls', 'socket2', 'hashbrown', 'async_trait', 'serde', 'pot'}
+_QUAL_PATH = re.compile(r' as (?:[A-Za-z_]\w*::)+')
 _WRAPPER_TY = re.compile(r'^(std::mem::ManuallyDrop<|std::mem::MaybeDangling<|std::ptr::Unique<|std::ptr::NonNull<|std::mem::MaybeUninit<|core::mem::ManuallyDrop<)')
 _IMPL_AT = re.compile(r'<impl at ([^:>]+):(\d+):(\d+): (\d+):(\d+)>')
 
@@ -1277,6 +1278,9 @@ class Interp:
         # rustc prints "trimmed" paths whose length depends on which names are unique in the crate: also try the last two segments
         segs = Program._segments(canon)
         short = '::'.join(segs[-2:]) if len(segs) > 2 and not canon.startswith('<') else canon
+        if ' as ' in func_text:
+            # `<T as some::path::Trait<..>>::m` -> `<T as Trait<..>>::m` (the printed trait path depends on name uniqueness)
+            short = _QUAL_PATH.sub(' as ', func_text)
         for rx, fn in self.override:
             if rx.search(func_text) or rx.search(short):
                 r = fn(self, st, func_text, args, fr)
@@ -1487,7 +1491,7 @@ class Interp:
     def drop_value(self, st, v, ref):
         """run Drop impls (crate bodies or model hooks) for v located at ref; returns Outcomes (ret UNIT / unwind)"""
         outs = [Outcome(st, 'ret', UNIT)]
-        if isinstance(v, (Uninit, Sc, z3.ExprRef, Str, FnItem, Ref, SymEnum)) or v is None:
+        if isinstance(v, (Uninit, Sc, z3.ExprRef, Str, FnItem, Ref, SymEnum, int, float, str)) or v is None:
             return outs
         if isinstance(v, (Agg, Enum)):
             tyname = v.ty
